@@ -67,6 +67,19 @@ fn main() {
                     tdverif::acc::Outcome::Done(f) => f,
                 }
             }
+            "iter" => match elem.as_str() {
+                "elem" => tdverif::iter::run_case::<Elem>(&case),
+                "u32" => tdverif::iter::run_case::<K32>(&case),
+                "zst" => tdverif::iter::run_case::<Zst>(&case),
+                e => panic!("unknown elem {e}"),
+            },
+            "serde" => tdverif::serdefam::run_case(&case),
+            "ctor" => match elem.as_str() {
+                "elem" => tdverif::ctor::run_case::<Elem>(&case),
+                "u32" => tdverif::ctor::run_case::<K32>(&case),
+                "zst" => tdverif::ctor::run_case::<Zst>(&case),
+                e => panic!("unknown elem {e}"),
+            },
             f => panic!("unknown family {f}"),
         };
         n += 1;
